@@ -24,10 +24,12 @@ REQUIRED = {'node-dense': 50, 'get': 50, 'full': 50, 'sum': 50, 'mean': 50,
     'meanP': 30, 'mul_scalar': 50, 'norm': 50, 'accuracy': 30,
     'accuracy_on_data': 30, 'interface': 50, 'get_and_grad': 30,
     'props': 50, 'erank': 50, 'outer': 10, 'int-bitexact': 20,
+    'large-exact': 200, 'dtype-upcast': 100,
     'get_many': 50}
 ASSUMPTIONS = ['numpy longdouble (64-bit mantissa) contraction is the dense '
     'reference; tolerance 10*(sum ranks + d)*2^-52*absbound',
     'integer mode: exact Python-int contraction, bit equality']
+COVER = ['act_one.copy', 'act_one.get', 'act_one.get_many', 'act_one.get_and_grad', 'act_one.interface', 'act_one.mean', 'act_one.norm', 'act_one.sum', 'act_two.accuracy', 'act_two.add', 'act_two.mul', 'act_two.mul_scalar', 'act_two.outer', 'act_two.sub', 'act_many.outer_many', 'transformation.full', 'props.erank', 'props.ranks', 'props.shape', 'props.size', 'data.accuracy_on_data']
 SHARDS = {'quick': 12, 'thorough': 16}
 
 C = 10.
@@ -40,6 +42,10 @@ def gen_cases(seed, tier):
     n = 900 if tier == 'quick' else 20000
     rng = np.random.default_rng([seed, 101])
     out = []
+    for j in range(60 if tier == 'quick' else 1500):
+        out.append({'kind': 'large', 'seed': int(rng.integers(1 << 62))})
+    for j in range(60 if tier == 'quick' else 1500):
+        out.append({'kind': 'dtype', 'seed': int(rng.integers(1 << 62))})
     for j in range(n):
         out.append({'seed': int(rng.integers(1 << 62)),
             'depth': int(rng.integers(1, 5 if tier == 'quick' else 8)),
@@ -146,7 +152,124 @@ def count_binary(t):
 
 # ---- the case -------------------------------------------------------------------
 
+def exact_chain(mats):
+    """Product of lists-of-lists of Python ints (exact)."""
+    v = [[1]]
+    for M in mats:
+        r1, r2 = len(M), len(M[0])
+        v = [[sum(v[0][a] * M[a][b] for a in range(r1)) for b in range(r2)]]
+    return v[0][0]
+
+
+def run_large(case, ctx):
+    """Tensors far too large for a dense reference (up to 10^20 and 2^70
+    entries): integer cores, exact Python-integer / Fraction references."""
+    import teneva
+    from fractions import Fraction
+    rng = np.random.default_rng(case['seed'])
+    if rng.random() < 0.5:
+        d, n = int(rng.integers(40, 71)), None
+        nn = [2] * d
+    else:
+        d = int(rng.integers(12, 25))
+        nn = [int(rng.integers(2, 11)) for _ in range(d)]
+    r = [1] + [int(rng.integers(1, 3)) for _ in range(d - 1)] + [1]
+    Y = [rng.integers(-1, 2, size=(r[k], nn[k], r[k + 1])).astype(float)
+        for k in range(d)]
+    if rng.random() < 0.5:
+        Y = [np.abs(G) for G in Y]       # positive: no cancellation in the sum
+    N = 1
+    for k in nn:
+        N *= k
+    ints = [[[[int(x) for x in row] for row in G[:, m, :]] for m in range(G.shape[1])]
+        for G in Y]
+    S = exact_chain([[[sum(ints[k][m][a][b] for m in range(nn[k]))
+        for b in range(r[k + 1])] for a in range(r[k])] for k in range(d)])
+    Sabs = exact_chain([[[sum(abs(ints[k][m][a][b]) for m in range(nn[k]))
+        for b in range(r[k + 1])] for a in range(r[k])] for k in range(d)])
+    tol = C * (sum(r) + d + sum(nn)) * EPS
+    got = teneva.sum(Y)
+    ctx.check('large-exact', abs(Fraction(float(got)) - S) <= tol * Sabs,
+        f'sum(Y) = {got!r} but the exact sum is {S} (d={d}, {N} entries)',
+        shape=nn, ranks=r)
+    gm = teneva.mean(Y)
+    ref_mean = Fraction(S, N)
+    ctx.check('large-exact', np.isfinite(gm) and abs(Fraction(float(gm))
+        - ref_mean) <= tol * Fraction(Sabs, N) + Fraction(1, 10 ** 320),
+        f'mean(Y) = {gm!r} but the exact mean is {float(ref_mean)!r} '
+        f'(d={d}, {N} entries)', shape=nn, ranks=r)
+    I = np.stack([rng.integers(0, k, size=20) for k in nn], axis=1)
+    vals = teneva.get_many(Y, I)
+    for row, v in zip(I, vals):
+        ex = exact_chain([ints[k][int(row[k])] for k in range(d)])
+        ctx.check('large-exact', float(v) == float(ex), f'get_many at {row}: '
+            f'{v!r} != exact {ex}')
+    ex0 = exact_chain([ints[k][int(I[0][k])] for k in range(d)])
+    ctx.check('large-exact', float(teneva.get(Y, I[0])) == float(ex0),
+        'get at a single index differs from the exact integer value')
+    ok = np.array_equal(teneva.shape(Y), nn) and np.array_equal(
+        teneva.ranks(Y), r)
+    ctx.check('props', ok, 'shape/ranks of a large tensor')
+    ctx.nontrivial(['large', nn, r])
+    ctx.sample({'case': case, 'shape': nn, 'ranks': r, 'entries': str(N),
+        'sum_observed': float(got), 'sum_exact': str(S),
+        'mean_observed': float(gm), 'mean_exact': float(ref_mean)})
+
+
+def run_dtype(case, ctx):
+    """Metamorphic: storing the (exactly representable) values of ONE operand
+    in a narrower dtype must not change the result of a binary routine."""
+    import teneva
+    rng = np.random.default_rng(case['seed'])
+    Ya, info = gen.make_tt(rng, 'generic', dmin=2, dmax=5, nmax=4, rmax=3,
+        max_entries=600)
+    n = info['n']
+    d = len(n)
+    # (integer-dtype cores are not TT-tensors in the sense of the library:
+    #  well-formed cores are float arrays, and sub() scales a copy in place)
+    kind = 'float32'
+    if rng.random() < 0.5:
+        Ya = [np.rint(3 * G) for G in Ya]      # small integers stored as float32
+    Ya = [G.astype(np.float32).astype(float) for G in Ya]
+    Yb = gen.cores(rng, n, gen.rand_ranks(rng, d, 3), 'normal')
+    Yn = [G.astype(kind) for G in Ya]        # same values, narrower dtype
+    for name in ('add', 'sub', 'mul', 'mul_scalar', 'outer'):
+        fn = getattr(teneva, name)
+        for first in (True, False):
+            try:
+                got = fn(Yn, Yb) if first else fn(Yb, Yn)
+            except Exception as ex:
+                ctx.viol('dtype-upcast', f'{name} with a {kind} operand '
+                    f'({"first" if first else "second"}) raised '
+                    f'{type(ex).__name__}: {ex}', shape=n)
+                continue
+            want = fn(Ya, Yb) if first else fn(Yb, Ya)
+            if name == 'mul_scalar':
+                A1, A2 = ref.dense_ld(Ya), ref.dense_ld(Yb)
+                t = C * (ref.nterms(Ya) + ref.nterms(Yb) + sum(n)) * EPS * \
+                    np.sum(ref.absbound(Ya) * ref.absbound(Yb))
+                ctx.close('dtype-upcast', got, np.sum(A1 * A2), t,
+                    f'mul_scalar with a {kind} operand')
+                continue
+            why = ref.wellformed([np.asarray(G, dtype=float) for G in got])
+            if not ctx.check('dtype-upcast', why is None, f'{name} with a '
+                    f'{kind} operand: {why}'):
+                continue
+            G1 = ref.dense_ld([np.asarray(G, dtype=float) for G in got])
+            G2 = ref.dense_ld(want)
+            tolr = C * (ref.nterms(want)) * EPS * ref.absbound(want)
+            ctx.close('dtype-upcast', G1, G2, tolr, f'{name}: result with a '
+                f'{kind} {"first" if first else "second"} operand differs '
+                'from the result with the same values stored as float64',
+                shape=n, d=d)
+    ctx.nontrivial(['dtype', n, kind])
+
+
 def run_case(case, ctx):
+    if case.get('kind') == 'large':
+        return run_large(case, ctx)
+    if case.get('kind') == 'dtype':
+        return run_dtype(case, ctx)
     import teneva
     rng = np.random.default_rng(case['seed'])
     int_mode = case['int']
